@@ -10,9 +10,11 @@
  * real code wrote them, the true time v_now and the rest of the script.  GPIO outputs read 0 after the reboot
  * (REBOOT line), the 32-bit microsecond counter restarts at `boot2`, the lateness script restarts.
  *
- * CFG keys in addition to devsim.h:  sbt=<StaircaseButtonType>  lateflags=0|1 (1: the board leaves
- * supla_relay_cfg[].channel_flags zero in gpio_init; they are filled by registration / the FLAGS event)
- * boot2=<u32 counter value right after a reboot>.
+ * First line of a case (numeric, the same line is read by the extracted model):
+ *   CFG boot boot2 sbt lateflags nrel (gpio ch flags chflags)* nt2 ms* nlate us* [rest] :
+ * boot/boot2 = value of the 32-bit microsecond counter at the first boot / right after a reboot, sbt =
+ * StaircaseButtonType, lateflags=1: the board leaves supla_relay_cfg[].channel_flags zero in gpio_init (they are
+ * filled by registration / the FLAGS event), ms = cfg.Time2[] per channel, us = lateness script of the timer double.
  * Events:  SET <ch> <v> <dur_ms> <sender>   supla_esp_channel_set_value() called directly
  *          SW <gpio> <hi>                    supla_esp_gpio_relay_switch() (what a button press ends in), hi 0|1|255
  *          TIME2 <ch> <ms>                   staircase time changed and configuration saved
@@ -69,10 +71,25 @@ static void c7_st(void) {
   fprintf(stdout, " :\n");
 }
 
+static long long c7_cfgints[512]; static int c7_ncfgints = 0, c7_cfgpos = 0;   /* c7_cfgpos: first int not consumed by the core */
+/* CFG boot boot2 sbt lateflags nrel (gpio ch flags chflags)* nt2 ms* nlate us* [driver-specific rest] : */
 static void c7_parse_cfg(const char *line) {
-  ds_apply_cfg(line);
-  c7_lateflags = (int)kv(line, "lateflags", 0); c7_sbt = (int)kv(line, "sbt", 0); c7_boot2 = (unsigned)kv(line, "boot2", 1);
-  for (int i = 0; i < 8; i++) c7_chflags[i] = i < v_board.nrelay ? v_board.relay[i].channel_flags : 0;
+  memset(&v_board, 0, sizeof v_board); c7_ncfgints = 0;
+  const char *p = line; if (!strncmp(p, "CFG", 3)) p += 3;
+  while (*p && *p != ':' && c7_ncfgints < 512) { while (*p == ' ') p++; if (!*p || *p == ':') break; c7_cfgints[c7_ncfgints++] = strtoll(p, (char **)&p, 0); }
+  int i = 0;
+#define NEXT (i < c7_ncfgints ? c7_cfgints[i++] : 0)
+  v_boot = (unsigned)(c7_ncfgints ? NEXT : 1); c7_boot2 = (unsigned)(c7_ncfgints > 1 ? NEXT : 1); c7_sbt = (int)NEXT; c7_lateflags = NEXT != 0;
+  int nrel = (int)NEXT;
+  for (int k = 0; k < nrel; k++) {
+    long long g = NEXT, ch = NEXT, f = NEXT, cf = NEXT;
+    if (k < 8) { v_board.relay[k].gpio = (int)g; v_board.relay[k].channel = (int)ch; v_board.relay[k].flags = (int)f; v_board.relay[k].channel_flags = (unsigned)cf; v_board.nrelay = k + 1; }
+  }
+  ds_ntime2 = 0; int nt2 = (int)NEXT; for (int k = 0; k < nt2; k++) { long long ms = NEXT; if (k < 8) ds_time2[ds_ntime2++] = ms; }
+  v_lateness_n = 0; int nl = (int)NEXT; for (int k = 0; k < nl; k++) { long long us = NEXT; if (k < 64) v_lateness_us[v_lateness_n++] = (unsigned)us; }
+  c7_cfgpos = i;
+#undef NEXT
+  for (int k = 0; k < 8; k++) c7_chflags[k] = k < v_board.nrelay ? v_board.relay[k].channel_flags : 0;
 }
 static void c7_fill_flags(void) {   /* lines 1538-1547 of supla_esp_devconn_set_channels, by relay index */
   for (int a = 0; a < RELAY_MAX_COUNT && a < v_board.nrelay; a++)
